@@ -53,7 +53,7 @@ class PresGen:
             inlineable = self.g.inlineable(ft)
             gid = f"{self.prefix}g{len(self.groups)}"
             members = {}
-            shape = r.choice(["named", "named", "newtype", "variant"])
+            shape = r.choice(["named", "named", "newtype", "variant", "tagged-only"])
 
             def parent(role, **fattrs):
                 nonlocal ft
@@ -61,6 +61,9 @@ class PresGen:
                     p = self.mk("named", fields=[Field("own", prim("i32")), Field("f", ft, **fattrs)])
                 elif shape == "newtype":
                     p = self.mk("newtype", fields=[Field(None, ft, **fattrs)])
+                elif shape == "tagged-only":
+                    # a tagged struct whose only member is the presented field: the tag is the parent's own part
+                    p = self.mk("named", fields=[Field("f", ft, **fattrs)], tag="t")
                 else:
                     p = self.mk("enum", variants=[Variant("Va", "struct", [Field("own", prim("i32")), Field("f", ft, **fattrs)]),
                                                   Variant("Vb", "unit")])
@@ -69,7 +72,7 @@ class PresGen:
             parent("name")
             if inlineable:
                 parent("inline", inline=True)
-            flat_ok = shape in ("named", "variant") and kind == "user" and it.kind in ("named", "enum") and not (it.kind == "named" and it.tag)
+            flat_ok = shape in ("named", "variant", "tagged-only") and kind == "user" and it.kind in ("named", "enum") and not (it.kind == "named" and it.tag)
             if flat_ok:
                 parent("flat", flatten=True)
                 # the same through a transparent wrapper
